@@ -113,8 +113,12 @@ Quiesced ==
            lostProbe == {u \in probes \cap mine : u \notin seen /\ (sub[u].mode # "T" \/ u \in emitted)}
        IN bad' = bad
             \* a run cut short by the harness's trace budget has not reached the horizon and is not judged for quiescence
-            \cup (IF alive /\ ~Cur.reached /\ ~Cur.cut THEN Flag("C02", "not-quiescent-within-horizon") ELSE {})
-            \cup (IF alive /\ Cur.reached /\ undeliveredR # {} THEN Flag("C02", "reliable-undelivered-at-quiescence") ELSE {})
+            \* (nor is a run into which the harness forged fragments: a forged frame may use ids the genuine sender has not reached
+            \* and wedge a direction for good - an on-path forger is outside the liveness clause; such runs get a short tail)
+            \cup (IF alive /\ ~Cur.reached /\ ~Cur.cut /\ ("honest" \notin DOMAIN Cur \/ Cur.honest) THEN Flag("C02", "not-quiescent-within-horizon") ELSE {})
+            \* (a cut run goes on unlogged until it comes to rest or reaches the horizon: `stalled` says it did not come to rest)
+            \cup (IF alive /\ "stalled" \in DOMAIN Cur /\ Cur.stalled /\ ("honest" \notin DOMAIN Cur \/ Cur.honest) THEN Flag("C02", "not-quiescent-within-horizon") \cup Flag("C11", "still-busy-at-the-horizon-after-the-faults-ended") ELSE {})
+            \cup (IF alive /\ Cur.reached /\ undeliveredR # {} /\ ("honest" \notin DOMAIN Cur \/ Cur.honest) THEN Flag("C02", "reliable-undelivered-at-quiescence") ELSE {})
             \* ... seen from C04: a packet of several fragments that never arrives although the connection has come to rest was
             \* not reassembled ("every packet ... arrives")
             \* (not in runs with forged copies of fragments: a forged fragment that arrives first decides the packet's header, and
